@@ -131,6 +131,9 @@ PREDS = {
   'd2': lambda p, keys: len(p) >= 2,
   'ka': lambda p, keys: len(p) >= 1 and 'a' in keys,
   'em': lambda p, keys: len(p) >= 1 and len(keys) == 0,
+  # path-shaped predicates: the path is the tuple of keys whatever `sep` is
+  'e2': lambda p, keys: len(p) == 2,
+  'lb': lambda p, keys: len(p) >= 1 and p[-1:] == ('b',),
 }
 
 
